@@ -5,7 +5,7 @@ import glob, json, os, re
 V = os.path.dirname(os.path.dirname(os.path.abspath(__file__)))
 TIE = {
  "C01": ("T (GenNetwork: link/route numbering; GenPipeline: the wrappers' stage composition; C10/C04/C03 units) + V on real outputs + C (simulator vs checker)", "full for the models (end-to-end composition theorem); real executions, incl. the C SA kernel, certified per instance by check_delivery in Coq, every matched key followed"),
- "C02": ("T (GenPlaceShape: Machine.__contains__ translated, Machine method inventory, forwarding of bf/hilbert/rcm.place) + C (exact, incl. SA step replay) + V on real outputs (check_placement_fast on the large cases)", "full for the sequential family (Hilbert curve for all sizes) and its entry points, rand; SA Python kernel invariant; C kernel outputs validated only; float schedule not modelled"),
+ "C02": ("T (GenPlaceShape: Machine.__contains__ translated, Machine method inventory, forwarding of bf/hilbert/rcm.place, breadth_first_vertex_order statement by statement) + C (exact, incl. SA step replay) + V on real outputs (check_placement_fast on the large cases; every real breadth-first order replayed in the model)", "full for the sequential family (Hilbert curve for all sizes; breadth-first vertex order for every set iteration order) and its entry points, rand; SA Python kernel invariant; C kernel outputs validated only; float schedule not modelled"),
  "C03": ("T (C11 geometry units; GenRouteShape: route()'s per-net loop, Machine) + C (exact trees; multi-net calls, Machine-reuse histories) + V on real outputs (check_tree, long routes included)", "full (route_valid for all inputs; nets routed independently; A* completeness)"),
  "C04": ("T (intersect, generality, merge bits; GenTableFront: front ends, method list, entry constructor) + C (exact) + V on real outputs", "full; guards proved necessary by refutations"),
  "C05": ("T (align, slices_overlap; GenWrapper: wrapper()'s constraint assembly) + C (exact; wrapper(), place_and_route_wrapper(), __setitem__ histories)", "full"),
